@@ -409,6 +409,27 @@ func (c *Ctx) useRecoveryCodeShape(f *ssa.Function) {
 			}
 		}
 	}
+	// alternative idiom: slices.Delete(slices.Clone(codes), i, i+1)
+	if !okLen {
+		for _, call := range Calls(f) {
+			if genericName(call) != "slices.Delete" || len(call.Common().Args) != 3 {
+				continue
+			}
+			cl, _ := CallOf(Arg(call, 0))
+			if cl == nil || genericName(cl) != "slices.Clone" {
+				continue
+			}
+			if _, isP := stripConv(Arg(cl, 0)).(*ssa.Parameter); !isP {
+				continue
+			}
+			if bo, ok := Arg(call, 2).(*ssa.BinOp); ok && bo.Op == token.ADD && bo.X == Arg(call, 1) {
+				if n, isC := ConstInt(bo.Y); isC && n == 1 {
+					r.Ok("C12.use-code", name, "slices.Delete(slices.Clone(codes), i, i+1)", posf(c, call), "result is a copy that omits exactly the matched element")
+					return
+				}
+			}
+		}
+	}
 	r.Check(okLen, "C12.use-code", name, "make([]string, len(codes)-1)", c.P.Pos(f.Pos()), "result is one shorter than the input", "the list returned is not exactly one element shorter than the stored list")
 	// skip: a branch 'j == use' that continues without storing
 	okSkip := false
@@ -502,6 +523,41 @@ func (c *Ctx) c12TOTPReplay() {
 		if ta == nil {
 			r.Bad("C12.totp-replay", vn, "UserOneTime", posf(c, tv), "validate does not look for the optional replay-protection interface")
 			continue
+		}
+		// ... of the user whose secret the code is checked against: the guard
+		// applied to an earlier reading of "the user" (the current user, before the
+		// pending login's account was loaded) is absent exactly for pending logins
+		userBase := func(v ssa.Value) ssa.Value {
+			for d := 0; d < 6; d++ {
+				switch x := v.(type) {
+				case *ssa.TypeAssert:
+					v = x.X
+					continue
+				case *ssa.Extract:
+					if t, ok := x.Tuple.(*ssa.TypeAssert); ok && x.Index == 0 {
+						v = t.X
+						continue
+					}
+				case *ssa.ChangeInterface:
+					v = x.X
+					continue
+				case *ssa.MakeInterface:
+					v = x.X
+					continue
+				}
+				break
+			}
+			return v
+		}
+		for _, b := range v.Blocks {
+			for _, in := range b.Instrs {
+				sc, ok := in.(ssa.CallInstruction)
+				if !ok || !sc.Common().IsInvoke() || sc.Common().Method.Name() != "GetTOTPSecretKey" {
+					continue
+				}
+				same := userBase(sc.Common().Value) == userBase(ta.X)
+				r.Check(same, "C12.totp-replay", vn, "replay guard on the validated user", posf(c, ta), "the optional interface is looked for on the user whose secret is used", "the replay-protection interface is looked for on "+SafeString(userBase(ta.X))+", not on the user whose secret the code is checked against ("+SafeString(userBase(sc.Common().Value))+"): where the two differ (a pending login, whose account is loaded later) the guard is skipped and the same code is accepted twice")
+			}
 		}
 		var okOT ssa.Value
 		for _, ref := range *ta.Referrers() {
@@ -754,4 +810,20 @@ func (c *Ctx) issuanceGated(rule string, scope func(*ssa.Function) bool) {
 		r.Ok(rule, fn, "PutSession(uid)", posf(c, s.Op.Call), "dominated by "+credKinds(creds))
 		c.bindIssuance(s, creds)
 	}
+}
+
+// genericName: "pkg.Func" of the (possibly instantiated generic) package-level
+// function a call invokes statically, "" otherwise.
+func genericName(call ssa.CallInstruction) string {
+	f := StaticCallee(call)
+	if f == nil {
+		return ""
+	}
+	if o := f.Origin(); o != nil {
+		f = o
+	}
+	if f.Pkg == nil || f.Signature.Recv() != nil {
+		return ""
+	}
+	return f.Pkg.Pkg.Path() + "." + f.Name()
 }
